@@ -110,7 +110,7 @@ fn sweep(m: &Msg, run: Run, tier: Tier, rep: &mut Report) {
             rep.violation(&key("cost-above-model"), format!("decoding cost {cd} exceeds {UPPER_K} x the documented model cost {}", mc.decoding), case(json!({"model": mc.decoding})));
         }
         // skipped data is charged to the skipping quota, and not more than the documented model says
-        let sbound = UPPER_K * mc.skipping + SKIP_SLACK;
+        let sbound = UPPER_K * mc.skipping + SKIP_SLACK + if mc.decoding <= TINY_MODEL { TINY_SKIP_SLACK } else { 0 };
         if cs as u64 > sbound {
             rep.violation(
                 &key("skipping-cost-above-model"),
@@ -206,6 +206,8 @@ const SKIP_SLACK: u64 = 16;
 /// model cost up to which a message counts as tiny, and the additive allowance such messages get on the upper bound
 const TINY_MODEL: u64 = 256;
 const TINY_SLACK: u64 = 2048;
+/// the same for the skipping cost (a failed attempt below an option charges its probes to the skipping quota as well)
+const TINY_SKIP_SLACK: u64 = 48;
 
 pub fn run(tier: Tier, replay: Option<&str>) -> i32 {
     let lim = Limits::default();
